@@ -434,6 +434,14 @@ pub fn check_output(inp: &Facts, out_bytes: &[u8], lim: &Limits) -> Vec<(String,
         if ini > lim.memory_pages {
             fail("output:memory-initial", format!("initial {ini} pages"));
         }
+        if inp.memories.len() == 1 && inp.memories[0].0 != ini {
+            fail("output:memory-initial-changed", format!("input declares {} initial pages, output {ini}", inp.memories[0].0));
+        }
+        if let (Some((_, Some(im))), Some(om)) = (inp.memories.first(), max) {
+            if *im != om {
+                fail("output:memory-max-changed", format!("input declares a maximum of {im} pages, output {om}"));
+            }
+        }
         if !out.exports.iter().any(|x| x.0 == "memory" && x.1 == 'm' && x.2 == 0) {
             fail("output:memory-export", "memory 0 is not exported as `memory`".into());
         }
